@@ -237,7 +237,9 @@ func SelectAddrFromSubnet(seed []byte, net1 *net.IPNet) (net.IP, error) {
 	randBigInt.And(randBigInt, maskBigInt)
 	ipBigInt.Add(ipBigInt, randBigInt)
 
-	return net.IP(ipBigInt.Bytes()), nil
+	// big.Int.Bytes() drops leading zero bytes, fill to the full address length so that networks
+	// whose first byte is 0 still yield a well formed address.
+	return net.IP(ipBigInt.FillBytes(make([]byte, addrLen/8))), nil
 }
 
 func init() {
